@@ -45,6 +45,14 @@ import (
 	"github.com/versity/versitygw/s3response"
 )
 
+// errIncompleteBody is returned when fewer (or more) bytes were received
+// than the request declared
+var errIncompleteBody = s3err.APIError{
+	Code:           "IncompleteBody",
+	Description:    "You did not provide the number of bytes specified by the Content-Length HTTP header",
+	HTTPStatusCode: http.StatusBadRequest,
+}
+
 type Posix struct {
 	backend.BackendUnsupported
 
@@ -2396,12 +2404,17 @@ func (p *Posix) UploadPart(ctx context.Context, input *s3.UploadPartInput) (*s3.
 		}
 	}
 
-	_, err = io.Copy(f, tr)
+	written, err := io.Copy(f, tr)
 	if err != nil {
 		if errors.Is(err, syscall.EDQUOT) {
 			return nil, s3err.GetAPIError(s3err.ErrQuotaExceeded)
 		}
 		return nil, fmt.Errorf("write part data: %w", err)
+	}
+	// the part was preallocated with the declared length: fewer bytes
+	// received would leave it padded with zeroes
+	if length > 0 && written != length {
+		return nil, errIncompleteBody
 	}
 
 	dataSum := hash.Sum(nil)
@@ -2767,7 +2780,9 @@ func (p *Posix) PutObject(ctx context.Context, po s3response.PutObjectInput) (s3
 		return s3response.PutObjectOutput{}, s3err.GetAPIError(s3err.ErrExistingObjectIsDirectory)
 	}
 
-	// if the versioninng is enabled first create the file object version
+	// if the versioninng is enabled the current file object version is
+	// archived before it is replaced (once the new body has been received)
+	archiveCurrent := false
 	if p.versioningEnabled() && vStatus != "" && err == nil {
 		var isVersionIdMissing bool
 		if p.isBucketVersioningSuspended(vStatus) {
@@ -2777,12 +2792,7 @@ func (p *Posix) PutObject(ctx context.Context, po s3response.PutObjectInput) (s3
 			}
 			isVersionIdMissing = len(vIdBytes) == 0
 		}
-		if !isVersionIdMissing {
-			_, err := p.createObjVersion(*po.Bucket, *po.Key, d.Size(), acct)
-			if err != nil {
-				return s3response.PutObjectOutput{}, fmt.Errorf("create object version: %w", err)
-			}
-		}
+		archiveCurrent = !isVersionIdMissing
 	}
 	if errors.Is(err, syscall.ENAMETOOLONG) {
 		return s3response.PutObjectOutput{}, s3err.GetAPIError(s3err.ErrKeyTooLong)
@@ -2838,12 +2848,26 @@ func (p *Posix) PutObject(ctx context.Context, po s3response.PutObjectInput) (s3
 		rdr = hashRdr
 	}
 
-	_, err = io.Copy(f, rdr)
+	written, err := io.Copy(f, rdr)
 	if err != nil {
 		if errors.Is(err, syscall.EDQUOT) {
 			return s3response.PutObjectOutput{}, s3err.GetAPIError(s3err.ErrQuotaExceeded)
 		}
 		return s3response.PutObjectOutput{}, fmt.Errorf("write object data: %w", err)
+	}
+	// the object was preallocated with the declared length: fewer bytes
+	// received would leave it padded with zeroes
+	if contentLength > 0 && written != contentLength {
+		return s3response.PutObjectOutput{}, errIncompleteBody
+	}
+
+	// The body has been received and verified: now archive the current
+	// version, so that a refused upload leaves the version history alone
+	if archiveCurrent {
+		_, err := p.createObjVersion(*po.Bucket, *po.Key, d.Size(), acct)
+		if err != nil {
+			return s3response.PutObjectOutput{}, fmt.Errorf("create object version: %w", err)
+		}
 	}
 
 	dir := filepath.Dir(name)
